@@ -1569,10 +1569,11 @@ def mul(info, a):
     elif a.get_size() == 8:
         c = ExprOp('umul08', eax, a)
         e.append(ExprAff(eax[:16], c))
-        e.append(ExprAff(of, ExprCond(eax[8:16],
+        # CF=OF=1 iff the upper half (the new ah) of the product is not zero
+        e.append(ExprAff(of, ExprCond(c[8:16],
                                       ExprInt32(1),
                                       ExprInt32(0))))
-        e.append(ExprAff(cf, ExprCond(eax[8:16],
+        e.append(ExprAff(cf, ExprCond(c[8:16],
                                       ExprInt32(1),
                                       ExprInt32(0))))
 
